@@ -235,3 +235,22 @@ Proof.
   - unfold prewarp. pose proof PI_RGT_0. pose proof PI_4 as P4.
     apply tan_increasing; unfold lit_1e4; try nra.
 Qed.
+
+Theorem eq_low_frequency_clamped_refuted :
+  exists (kind : eqkind) (fc q gain fs : R),
+    0 < fs /\ 0 < fc /\ fc / fs < lit_1e4 /\
+    eq_coeffs PI lit_1e4 lit_half lit_minq tan (Rpower 10) kind fc q gain (1 / fs) =
+    eq_coeffs PI lit_1e4 lit_half lit_minq tan (Rpower 10) kind (lit_1e4 * fs) q gain (1 / fs) /\
+    lit_1e4 * fs = 96 / 5 /\ fc = 12.
+Proof.
+  exists Bell, 12, 2, 12, 192000.
+  split; [lra|]. split; [lra|]. split; [unfold lit_1e4; lra|]. split; [|split; [unfold lit_1e4; lra|reflexivity]].
+  unfold eq_coeffs. change (oZ 0 : R) with 0. change (oZ 1 : R) with 1. change (oZ 40 : R) with 40.
+  cbn [odiv omul oadd osub omax osqrt Ops_R].
+  rewrite !oclamp_R by (unfold lit_1e4, lit_half; lra).
+  assert (E1 : clampR (12 * (1 / 192000)) lit_1e4 lit_half = lit_1e4).
+  { unfold clampR. rewrite Rmin_right by (unfold lit_1e4, lit_half; lra). apply Rmax_left. unfold lit_1e4; lra. }
+  assert (E2 : clampR (lit_1e4 * 192000 * (1 / 192000)) lit_1e4 lit_half = lit_1e4).
+  { apply clampR_id. unfold lit_1e4, lit_half. lra. }
+  rewrite E1, E2. reflexivity.
+Qed.
